@@ -431,8 +431,12 @@ func genDeclCase(rt *rapid.T) (Case, []string) {
 		generic := w.n(3, "generic") == 0
 		if w.n(1, "isRecord") == 0 {
 			r := &lang.RecDecl{Name: fmt.Sprintf("Rc%d", i)}
-			if w.n(3, "lowerTypeName") == 0 {
+			switch w.n(5, "recNameShape") {
+			case 0:
 				r.Name = fmt.Sprintf("rc%d", i)
+			case 1:
+				r.Name = fmt.Sprintf("Rc_%d", i)
+				w.labels["underscore in a type / case name"] = true
 			}
 			if generic {
 				r.TParams = []string{"T"}
@@ -455,6 +459,15 @@ func genDeclCase(rt *rapid.T) (Case, []string) {
 			fo.WriteString(lang.ItemText(&lang.TopItem{Types: []*lang.TypeDecl{{Rec: r}}}, lang.Canonical{}) + "\n")
 		} else {
 			u := &lang.UnionDecl{Name: fmt.Sprintf("Un%d", i)}
+			// the documented names are plain concatenations: U_C, New_U_C - also when U or C contain '_'
+			switch w.n(5, "unionNameShape") {
+			case 0:
+				u.Name = fmt.Sprintf("Un_%d", i)
+				w.labels["underscore in a type / case name"] = true
+			case 1:
+				u.Name = fmt.Sprintf("U_n_%d", i)
+				w.labels["underscore in a type / case name"] = true
+			}
 			if generic {
 				u.TParams = []string{"T"}
 				w.labels["generic union"] = true
@@ -462,6 +475,10 @@ func genDeclCase(rt *rapid.T) (Case, []string) {
 			nc := 1 + w.n(3, "ncases")
 			for j := 0; j < nc; j++ {
 				c := lang.UCase{Name: fmt.Sprintf("C%d%c", i, 'a'+j)}
+				if w.n(5, "caseNameShape") == 0 {
+					c.Name = fmt.Sprintf("C_%d_%c", i, 'a'+j)
+					w.labels["underscore in a type / case name"] = true
+				}
 				if w.n(2, "payload") != 0 {
 					c.Payload = w.pickType(2)
 					if generic && w.n(1, "payloadT") == 0 {
